@@ -139,6 +139,15 @@ PROPS = {
         'assumptions': ["'equivalent to a fresh writer' is judged by comparing every dump of the history with the model of a single fresh dump (the same comparison C04-C07 use)"],
         'partial': 'the carried-state model covers the three fields the writer keeps between requests (memory blocks, crashing-thread context, principal mapping)',
     },
+    'C11': {
+        'abi_module': 'AbiC11',
+        'stages': quick_thorough(
+            [{'name': 'faults', 'sub': 'c11', 'n': 6, 'timeout': 600}],
+            [{'name': 'faults', 'sub': 'c11', 'n': 40, 'timeout': 3000}]),
+        'assumptions': ["JSON well-formedness comes from serde_json (observed by parsing, not proved)",
+                        "streams owned by a failed step: thread names (ThreadName), CPU details of the system-info stream (CpuInfoFileOpen); every other stream must equal the no-fault dump of the same target"],
+        'partial': 'vanished threads (exit between enumeration and attach) are modelled (AGone) but exercised live by the C03 stage; unreadable /proc files need a mount namespace and are not induced',
+    },
     'C13': {
         'abi_module': 'AbiC13',
         'stages': quick_thorough(
